@@ -1,3 +1,61 @@
 package render
 
-// Injected by overlay (never written into /repo).
+// Injected by overlay (never written into /repo): construction and
+// observation of arbitrary Renderer states for one-step harnesses.
+
+import (
+	"image"
+	"image/color"
+
+	"github.com/reactivego/ivg"
+)
+
+type VPState struct {
+	CSel, NSel       uint8
+	LOD0, LOD1       float32
+	CReg             [64]color.RGBA
+	NReg             [64]float32
+	Palette          [64]color.RGBA
+	Disabled         bool
+	PrevSmoothType   uint8
+	PrevSmoothPointX float32
+	PrevSmoothPointY float32
+	ViewBox          ivg.ViewBox
+	R                image.Rectangle
+}
+
+// VPSet overwrites the register-machine part of the state (the rasterizer
+// binding is left alone) and recomputes the viewBox transform as Reset and
+// SetRasterizer do.
+func (z *Renderer) VPSet(s *VPState) {
+	z.cSel, z.nSel = s.CSel, s.NSel
+	z.lod0, z.lod1 = s.LOD0, s.LOD1
+	z.cReg, z.nReg, z.palette = s.CReg, s.NReg, s.Palette
+	z.disabled = s.Disabled
+	z.prevSmoothType = s.PrevSmoothType
+	z.prevSmoothPointX, z.prevSmoothPointY = s.PrevSmoothPointX, s.PrevSmoothPointY
+	z.viewBox = s.ViewBox
+	z.r = s.R
+	z.recalcTransform()
+}
+
+func (z *Renderer) VPGet() VPState {
+	return VPState{
+		CSel: z.cSel, NSel: z.nSel, LOD0: z.lod0, LOD1: z.lod1, CReg: z.cReg, NReg: z.nReg, Palette: z.palette,
+		Disabled: z.disabled, PrevSmoothType: z.prevSmoothType,
+		PrevSmoothPointX: z.prevSmoothPointX, PrevSmoothPointY: z.prevSmoothPointY, ViewBox: z.viewBox, R: z.r,
+	}
+}
+
+// VPFill reports the paint chosen by StartPath: kind 0 = none yet, 1 = flat, 2 = gradient.
+func (z *Renderer) VPFill() (kind int, flat color.RGBA, g *Gradient) {
+	switch z.fill {
+	case nil:
+		return 0, color.RGBA{}, nil
+	case image.Image(&z.flatImage):
+		return 1, z.flatColor, nil
+	}
+	return 2, color.RGBA{}, &z.gradient
+}
+
+func (z *Renderer) VPScale() (sx, bx, sy, by float32) { return z.scaleX, z.biasX, z.scaleY, z.biasY }
